@@ -308,7 +308,26 @@ def r3_cut_agree(c, facts):
                     for n, t2, b2 in MF.slice_back(cyc, o['l'], cidx, through_calls=False)['calls']:
                         if P.strip(n).endswith('Vec::is_empty'):
                             tests.append(b2)
-    if not drains or not tests:
+    # `loop { ..; if collected.is_empty() { return Ok(()) } drain .. }`: the emptiness test decides between leaving the
+    # loop and draining for another round
+    dblocks = [d for d, _ in drains]
+    for b, t in P.call_blocks(cyc, 'Vec::is_empty'):
+        sw = cyc.mir['blocks'][t['target']]['term']
+        cur = t['target']
+        hops = 0
+        while sw['t'] != 'switch' and 'target' in sw and hops < 3:
+            cur = sw['target']; sw = cyc.mir['blocks'][cur]['term']; hops += 1
+        if sw['t'] != 'switch':
+            continue
+        succ = cyc.succ(cur)
+        leaves = [x for x in succ if any(cyc.mir['blocks'][y]['term']['t'] == 'return' for y in cyc.reachable_from(x, avoid=dblocks + list(P.err_blocks(cyc))))]
+        again = [x for x in succ if any(d in cyc.reachable_from(x) for d in dblocks) and x not in leaves]
+        if leaves and again:
+            tests.append(b)
+    in_loop = [d for d in dblocks if d in cyc.reachable_from(cyc.succ(d)[0] if cyc.succ(d) else d)]
+    if drains and not in_loop:
+        c.bad(R, 'fixpoint-structure-not-found', 'cycles_check: the collected edges are no longer drained inside a loop (a single pass leaves residual cycles)')
+    elif not drains or not tests:
         c.bad(R, 'fixpoint-structure-not-found', 'cycles_check: cannot find the drain of collected edges or the emptiness test that requests another iteration')
     else:
         bad = [d for d, _ in drains for t in tests if cyc.dominates(d, t)]
